@@ -8,5 +8,6 @@ mkdir -p run evidence
 cp /repo/go.sum harness/go.sum
 (cd harness && go build -tags verif -o ../run/nghx .)
 if [ -x run/nghx ] && run/nghx gen-tables -out coq/gen >/dev/null 2>&1; then :; fi
-(cd coq && coq_makefile -f _CoqProject -o Makefile >/dev/null && timeout 3000 make -j16)
+python3 lib/mkcoqproject.py
+(cd coq && coq_makefile -f _CoqProject -o Makefile >/dev/null && (timeout 3000 make -k -j16 || echo "setup: some Coq targets failed (each check rebuilds and reports its own)"))
 echo setup-ok
